@@ -1641,9 +1641,16 @@ class Run:
                     ilisting = out["listing"]
                     for phase, rt in (("created", route), ("reloaded", "experimentFromInstance(reload)")):
                         if phase not in out:
-                            self.load_rejected(dict(world, keys=dirish, route=rt), rt, out, decl)
+                            self.load_rejected(dict(world, keys=sorted(set(dirish) & {n for n, k in ilisting if k in DIRISH}),
+                                                    route=rt), rt, out, decl)
                             continue
                         view = out[phase]
+                        if phase == "reloaded":
+                            # as the user sees the INSTANCE directory (lstat + stat by the harness)
+                            inst_dirs = sorted(n for n, k in ilisting if k in DIRISH)
+                            dirish_now = sorted(set(dirish) & set(inst_dirs))
+                        else:
+                            dirish_now = dirish
                         self.queue(rt + " top_level_folders ⊇ package folders + input/stages/output",
                                    dict(base_case, route=rt), {"op": "insttlf", "listing": listing, "sorted": True},
                                    sorted(set(view["tlf"]) - {"python"}))
@@ -1652,8 +1659,8 @@ class Run:
                                        dict(base_case, route=rt),
                                        {"op": "fromdir", "listing": ilisting, "dirs": True, "files": False, "sorted": True},
                                        sorted(set(view["tlf"])))
-                        self.load_oracle(dict(world, keys=dirish, route=rt), rt, view, decl)
-                        derived.append((rt, view["tlf"], dirish))
+                        self.load_oracle(dict(world, keys=dirish_now, route=rt), rt, view, decl)
+                        derived.append((rt, view["tlf"], dirish_now))
                         summary[rt] = {"tlf": sorted(set(view["tlf"]) - {"python"}), "refs": view["refs"],
                                        "unknown": view["unknown"]}
                     shutil.rmtree(inst, ignore_errors=True)
@@ -1849,7 +1856,7 @@ FILEISH = ("file", "linkfile")
 # names that the instance machinery creates itself / handles specially
 DIR_NAME_EXCLUDE = {"input", "stages", "output", "hooks", "python", "conf", "", ".", ".."}
 DIR_FIXED_NAMES = ["forcefield", "dataset", "README.md", "my.data", "Data", "lib64", ".git", ".cache", ".store", "x_1",
-                   "manifest.yaml", "deploy", "Bin"]
+                   "manifest.yaml", "Bin"]
 CONSUMER = "zz-consumer"
 
 
@@ -1873,7 +1880,9 @@ def gen_dirworld(rng, special, base=None):
     for _ in range(rng.randint(2, 7)):
         p = rng.choices([p for p, _w in pools], weights=[w for _p, w in pools])[0]
         n = gen_plain_name(rng) if p is None else rng.choice(p)
-        if n in DIR_NAME_EXCLUDE or n in names or stage_prefixed(n) or "/" in n or ":" in n:
+        # instance creation deliberately leaves the CONTENTS of directories called *deploy* behind (copytree ignore): a
+        # relative link into such a directory is a folder of the package and a broken link of the instance
+        if n in DIR_NAME_EXCLUDE or n in names or stage_prefixed(n) or "/" in n or ":" in n or "deploy" in n:
             continue
         names.append(n)
     entries = []
@@ -2279,7 +2288,8 @@ def run(ctx):
                        "directory worlds: POSIX file system with symbolic links and fifos; os.listdir / os.path.isdir / "
                        "shutil.copytree behave as documented; instance routes only for packages without application "
                        "dependencies and without explicit manifest; the `python` link that instance creation adds depending on "
-                       "the environment is ignored"]
+                       "the environment is ignored; no top-level entry of a generated package is called *deploy* (instance "
+                       "creation leaves the contents of such directories behind on purpose)"]
     ctx.trusted.append("C09: os.path.split/join/splitext re-modelled structurally in Model/Ref.lean (posixSplit, pathJoin, "
                        "splitextRoot), regex prefix/search semantics of stage([0-9]+), VariablePattern and \\[(\\d+)\\] re-modelled "
                        "as list functions; pinned by the regenerated sources in Gen/C09.lean and compared on every run")
